@@ -346,7 +346,7 @@ def sig_src(params, nres, perm):
     return src
 
 
-# ------------------------------------------------------------------ regression: stale struct wire (fixed in /repo a8086d8)
+# ------------------------------------------------------------------ regression: stale struct wire (fixed in /repo 32e45a7)
 STALE_SRC = '''
 @guppy.struct
 class St:
